@@ -1672,8 +1672,10 @@ nice_udp_turn_socket_parse_recv (NiceSocket *sock, NiceSocket **from_sock,
     ChannelBinding *b = l->data;
     if (priv->compatibility == NICE_TURN_SOCKET_COMPATIBILITY_DRAFT9 ||
         priv->compatibility == NICE_TURN_SOCKET_COMPATIBILITY_RFC5766) {
-      if (b->channel == ntohs(recv_buf.u16[0])) {
-        recv_len = ntohs (recv_buf.u16[1]);
+      if (recv_len >= sizeof(uint32_t) &&
+          b->channel == ntohs(recv_buf.u16[0])) {
+        /* Never trust the length field beyond the received datagram. */
+        recv_len = MIN (ntohs (recv_buf.u16[1]), recv_len - sizeof(uint32_t));
         recv_buf.u8 += sizeof(uint32_t);
         binding = b;
         break;
